@@ -54,6 +54,19 @@ def corpus(rng, quick):
             struct.pack_into("=I", b, 8, size)
             struct.pack_into("=HH", b, 12, version, generation)
             out.append(("size%d-ver%d-gen%d" % (size, version, generation), bytes(b)))
+    # an unusable header followed by something that would pass for a header further into the file
+    # (the record area holds a header image at offset 16, 32 or 48; the file is long enough for it)
+    for hname, (version, generation, flip) in {"ver0-gen0": (0, 0, False), "ver1-gen0": (1, 0, False), "ver0-gen6": (0, 6, False), "bad-magic": (1, 6, True), "zero-header": (None, None, False)}.items():
+        for off in (16, 32, 48):
+            b = bytearray(valid + bytes(64))
+            b[off:off + 16] = valid[:16]
+            if version is None:
+                b[0:16] = bytes(16)
+            else:
+                struct.pack_into("=HH", b, 12, version, generation)
+            if flip:
+                b[3] ^= 0x40
+            out.append(("%s-header-image-at-%d" % (hname, off), bytes(b)))
     # header valid, body random / shorter than the record
     for n in [16, 17, 24, 40, 64, 71]:
         out.append(("valid-header-len%d" % n, valid[:n]))
@@ -254,7 +267,10 @@ def run_list(ctx, tool, mode_args, paths, env=None, wrap=None, timeout=900, umas
     e = dict(ctx.env)
     if env:
         e.update(env)
-    p = subprocess.run(cmd, stdout=subprocess.PIPE, stderr=subprocess.PIPE, text=True, timeout=timeout, env=e, umask=umask)
+    try:
+        p = subprocess.run(cmd, stdout=subprocess.PIPE, stderr=subprocess.PIPE, text=True, timeout=timeout, env=e, umask=umask)
+    except subprocess.TimeoutExpired:
+        raise Inconclusive("%s did not finish within %d s" % (os.path.basename(tool), timeout))
     return p
 
 
@@ -552,6 +568,25 @@ def run(ctx):
         "fifo_with_writer": fifo_stats,
         "exhaustive_over": "truncation lengths 0..80",
     }
+    # a client that attaches while the daemon is in the middle of an update of a published segment (also the
+    # update in which the 16-bit generation rolls over): a fresh open at every point of the update
+    from . import shm as _shm
+    from .common import NPROC
+    oparts = _shm.run_single(ctx, _shm.shmsim(ctx), ["c11sweep", "--only-watched", "1"], NPROC, 900)
+    opens = 0
+    viol += _shm.crash_violations(oparts)
+    for p_ in oparts:
+        if p_ is None:
+            if not inconclusive:
+                inconclusive = "an opens-during-updates run did not finish"
+            continue
+        if p_.get("_crashed"):
+            continue
+        opens += p_.get("opens_during_updates", 0)
+        viol += [v for v in p_["violations"] if v["sig"] == "open-fails-while-the-daemon-updates"]
+    coverage["opens_at_every_point_of_an_update"] = opens
+    if opens < 1000 and not inconclusive:
+        inconclusive = "only %d opens during updates were observed" % opens
     # threads and forked children in a C client (own contexts, handed-over contexts, inherited contexts)
     from . import client as _client
     _mv, _ms = _client.run_mt(ctx, "C16", 2.0 if ctx.quick() else 20.0)
